@@ -4,6 +4,7 @@ import Redproxy.Lemmas.RdEval
 import Redproxy.Lemmas.AddrText
 import Redproxy.Model.Http
 import Redproxy.Lemmas.HttpLine
+import Redproxy.Lemmas.HttpLineWs
 /-!
 # C03 — destination integrity through every protocol re-encoding
 
@@ -629,5 +630,80 @@ theorem connect_exchange_verdict (tbl : V6Tbl) (t : Addr) (ch bs : Bytes) (req :
   rw [hreq]
   simp only [runFlat_bind, hw', hr]
   by_cases hc : r.code = 200 <;> simp [hc]
+
+/-! ## line framing, fourth layer: a whole request head (`HttpRequest::write_to` then `HttpRequest::read_from`) -/
+
+/-- a token of the request line: not empty, no ASCII white space (LF included) -/
+def Token (t : Bytes) : Prop := t ≠ [] ∧ ∀ x ∈ t, isAsciiWs x = false
+
+/-- a request head the writer can emit without changing its meaning -/
+def ReqOk (r : Http.Req) : Prop :=
+  Token r.method ∧ Token r.resource ∧ Token r.version ∧ Http.httpSlash.isPrefixOf r.version = true ∧
+  (∃ v' b, r.version = v' ++ [b] ∧ 0x20 < b ∧ b < 0x80) ∧
+  utf8Valid (r.method ++ [0x20] ++ r.resource ++ [0x20] ++ r.version ++ [13, 10]) = true ∧
+  ∀ kv ∈ r.headers, HeaderOk kv
+
+def reqBytes (r : Http.Req) : Bytes :=
+  r.method ++ [0x20] ++ r.resource ++ [0x20] ++ r.version ++ Http.crlf ++ headBytes r.headers ++ Http.crlf
+
+theorem writeRequest_writes (r : Http.Req) (s : Bytes) (w : W) :
+    runFlat (Http.writeRequest r) s w =
+      (.ok (), s, { flushed := w.flushed ++ (w.pending ++ reqBytes r), pending := [] }) := by
+  simp [Http.writeRequest, runFlat_bind, headerLines_writes, reqBytes, List.append_assoc]
+
+open HttpLine in
+/-- `read_from` over what `write_to` wrote returns exactly the request — method, resource (the destination text),
+version, headers in order — and leaves every byte behind the head (early data) unread -/
+theorem request_roundtrip (r : Http.Req) (rest : Bytes) (w : W) (fuel : Nat) (hok : ReqOk r)
+    (hf : r.headers.length < fuel) :
+    runFlat (Http.readRequest fuel) (reqBytes r ++ rest) w = (.ok r, rest, w) := by
+  obtain ⟨⟨hm, hmw⟩, ⟨hr, hrw⟩, ⟨hv, hvw⟩, hpre, ⟨v', b, hvs, hb⟩, hu, hh⟩ := hok
+  have nolf : ∀ t : Bytes, (∀ x ∈ t, isAsciiWs x = false) → 10 ∉ t := by
+    intro t ht hmem
+    have := ht 10 hmem
+    simp [isAsciiWs] at this
+  have hlf : 10 ∉ (r.method ++ [0x20] ++ r.resource ++ [0x20] ++ r.version) ++ [13] := by
+    simp [nolf _ hmw, nolf _ hrw, nolf _ hvw]
+  have hu' : utf8Valid (((r.method ++ [0x20] ++ r.resource ++ [0x20] ++ r.version) ++ [13]) ++ [10]) = true := by
+    simpa [List.append_assoc] using hu
+  have h := readLine_exact _ (headBytes r.headers ++ Http.crlf ++ rest) w hlf hu'
+  have hbytes : reqBytes r ++ rest = ((r.method ++ [0x20] ++ r.resource ++ [0x20] ++ r.version) ++ [13]) ++
+      10 :: (headBytes r.headers ++ Http.crlf ++ rest) := by
+    simp [reqBytes, Http.crlf, List.append_assoc]
+  have htrim : trimEnd (((r.method ++ [0x20] ++ r.resource ++ [0x20] ++ r.version) ++ [13]) ++ [10]) =
+      r.method ++ [0x20] ++ r.resource ++ [0x20] ++ r.version := by
+    have := trimEnd_crlf (r.method ++ [0x20] ++ r.resource ++ [0x20] ++ v') b hb
+    rw [hvs]
+    simpa [List.append_assoc] using this
+  have hsplit := splitAsciiWs_three r.method r.resource r.version hm hr hv hmw hrw hvw
+  have hrec := headers_roundtrip r.headers [] rest w fuel hh hf
+  rw [hbytes]
+  unfold Http.readRequest
+  rw [runFlat_bind, h]
+  simp only [htrim, hsplit, hpre, if_true, runFlat_bind, hrec]
+  simp
+
+/-- END TO END for HTTP CONNECT, bytes included: the bytes `h11c_connect` writes for a destination whose text reads back,
+read by `HttpRequest::read_from` and interpreted by `h11c_handshake`, name exactly that destination — and the early
+data behind the head is untouched -/
+theorem connect_bytes_interpreted (tbl : V6Tbl) (t : Addr) (ch bs : Bytes) (req : Http.Req) (rest : Bytes) (w : W)
+    (fuel : Nat) (hrt : Addr.parse tbl (t.toText tbl) = some t)
+    (hreq : Http.connectRequest tbl t .tcp ch bs = some req) (hok : ReqOk req) (hf : req.headers.length < fuel) :
+    ∃ got, runFlat (Http.readRequest fuel) (reqBytes req ++ rest) w = (.ok got, rest, w) ∧
+      Http.interpret tbl got = .tcp t :=
+  ⟨req, request_roundtrip req rest w fuel hok hf, connect_tcp_interpreted tbl t ch bs req hrt hreq⟩
+
+-- non-vacuity: the request `h11c_connect` composes for "a.b:443" meets `ReqOk` ("CONNECT a.b:443 HTTP/1.1", Host header)
+example : Http.connectRequest [] (.domain [97,46,98] 443) .tcp [] [] =
+    some { method := [67,79,78,78,69,67,84], resource := [97,46,98,58,52,52,51], version := [72,84,84,80,47,49,46,49],
+           headers := [([72,111,115,116], [97,46,98,58,52,52,51])] } := by decide +kernel
+example : ReqOk { method := [67,79,78,78,69,67,84], resource := [97,46,98,58,52,52,51], version := [72,84,84,80,47,49,46,49],
+                  headers := [([72,111,115,116], [97,46,98,58,52,52,51])] } := by
+  refine ⟨⟨by decide, by decide⟩, ⟨by decide, by decide⟩, ⟨by decide, by decide⟩, by decide +kernel,
+    ⟨[72,84,84,80,47,49,46], 49, by decide, by decide⟩, by decide, ?_⟩
+  intro kv hkv
+  simp only [List.mem_cons, List.not_mem_nil, or_false] at hkv
+  subst hkv
+  exact ⟨by decide, by decide, by decide, by decide, ⟨[97,46,98,58,52,52], 51, by decide, by decide⟩, by decide⟩
 
 end Redproxy.Props.C03
